@@ -42,7 +42,9 @@ def task_variants(tier):
                     out.append(("fixed", fixed("a", d, **kw)))
                 out.append(("zero", zero("a", **kw)))
                 vgrid = [dict(), dict(min_duration=1), dict(min_duration=2, max_duration=3), dict(max_duration=1),
-                         dict(allowed_durations=[1, 3]), dict(min_duration=2, allowed_durations=[1, 3])]
+                         dict(allowed_durations=[1, 3]), dict(min_duration=2, allowed_durations=[1, 3]),
+                         # a list is a set of allowed values: repeated or unsorted entries change nothing
+                         dict(allowed_durations=[1, 3, 3]), dict(allowed_durations=[3, 1, 1])]
                 if tier == "thorough":
                     vgrid += [dict(min_duration=1, max_duration=1), dict(allowed_durations=[2]), dict(max_duration=3),
                               dict(min_duration=0, max_duration=2, allowed_durations=[1, 2, 3])]
